@@ -40,6 +40,8 @@ def impl_funcs():
     out["__get_boost_chain_ids"] = getattr(lz, "__get_boost_chain_ids")
     out["assert_isobar_topology"] = d.assert_isobar_topology
     out["assert_two_body_decay"] = d.assert_two_body_decay
+    for n in ("assert_three_body_decay", "get_spectator_id", "get_decay_product_ids"):
+        out[n] = getattr(getattr(d, n), "__wrapped__", getattr(d, n))   # the function behind functools.cache
     out["create_spin_range"] = create_spin_range
     return out
 
@@ -66,6 +68,15 @@ def topo_inputs(seed, tier):
                 out.append((f"iso{n}.{b}.v{v}", variant(rng, base, perm, rng.choice([0, 0, 1])), True))
     for n in (3, 4):
         out.append((f"nbody{n}", topo_to_data(create_n_body_topology(1, n)), False))
+    # three-body topologies in the labelling the DPD helpers require (initial state 0, final states 1, 2, 3), every
+    # assignment of the final-state labels, the intermediate edge and the nodes renumbered in two ways
+    base = topo_to_data(create_isobar_topologies(3)[0])
+    for k, perm in enumerate(itertools.permutations([1, 2, 3])):
+        emap = {-1: 0, 0: perm[0], 1: perm[1], 2: perm[2], 3: 4 + k % 2 * 3}
+        d = {"nodes": list(base["nodes"]), "edges": [[emap[i], o, e] for i, o, e in base["edges"]]}
+        if k % 3 == 2:
+            rng.shuffle(d["edges"])
+        out.append((f"dpd3.{k}", d, True))
     return out
 
 
@@ -91,7 +102,8 @@ def coq_res(r, kind):
 EQB = {"Z": "Z.eqb", "bool": "Bool.eqb", "optZ": "Kin.oZ_eqb", "listZ": "Kin.lZ_eqb", "unit": "unit_eqb"}
 KIND = {"get_sibling_state_id": "Z", "determine_attached_final_state": "listZ", "is_opposite_helicity_state": "bool",
         "get_parent_id": "optZ", "list_decay_chain_ids": "listZ", "__get_boost_chain_ids": "listZ",
-        "assert_isobar_topology": "unit", "assert_two_body_decay": "unit", "create_spin_range": "listZ"}
+        "assert_isobar_topology": "unit", "assert_two_body_decay": "unit", "create_spin_range": "listZ",
+        "assert_three_body_decay": "unit", "get_spectator_id": "Z", "get_decay_product_ids": "listZ"}
 FUEL = {"list_decay_chain_ids", "__get_boost_chain_ids"}
 
 
@@ -123,7 +135,7 @@ def build_cases(seed, tier):
         t = data_to_topo(d)
         ids = [i for i, _, _ in d["edges"]] + [97]
         ne = len(d["edges"])
-        for name in ["assert_isobar_topology"]:
+        for name in ["assert_isobar_topology", "assert_three_body_decay", "get_spectator_id", "get_decay_product_ids"]:
             r = run_impl(F[name], t)
             cases.append({"label": label, "func": name, "arg": None, "impl": r, "topo": d,
                           "expect": coq_res(r, KIND[name]), "model": model_call(name, "T", None, ne)})
